@@ -151,6 +151,14 @@ def render(text, code, curt, size, signer_idx=None, dst="rx"):
     return [g for g, _ in tx.sent], tx
 
 
+def render_as(text, code, curt, size, vid, keyage, dst="rx"):
+    """Real transmit path for an arbitrary (vid, key) pairing: the grams claim `vid` and are signed with keyage.qss."""
+    tx = new_tx(code, curt, size, vid=vid, keep={vid: keyage})
+    tx.memoit(text, dst, vid)
+    tx.serviceAllTx()
+    return [g for g, _ in tx.sent]
+
+
 # ---------------------------------------------------------------------------
 # layout probing through the real rend()
 # ---------------------------------------------------------------------------
